@@ -565,6 +565,85 @@ fn front_ends(rep: &mut Report) {
                 v.push(("C20:sibling-connection-affected".to_string(), format!("after {} malformed inputs on the {fname} listener a well-formed request on a new connection no longer works", garbage.len())));
             }
         }
+        // ---- connections that STALL (incomplete input, socket kept open) while a sibling arrives: on both front-end
+        //      listeners and on the server's TLS listener
+        let stallers: Vec<(&str, Vec<u8>)> = vec![
+            ("silent", vec![]),
+            ("1 byte", vec![5]),
+            ("incomplete greeting", vec![5, 2]),
+            ("method count 255, one method", vec![5, 255, 0]),
+            ("incomplete request", vec![5, 1, 0, 5, 1, 0, 1, 127]),
+            ("incomplete request line", b"GET / HT".to_vec()),
+            ("incomplete header", b"GET / HTTP/1.1\r\nHost: x".to_vec()),
+            ("incomplete TLS record", b"\x16\x03\x01\x02\x00\x01\x00".to_vec()),
+        ];
+        for (fname, addr) in [("socks5", lx.socks.unwrap()), ("http", lx.http.unwrap()), ("server", lx.server_addr)] {
+            let mut open = vec![];
+            for (_, bytes) in &stallers {
+                if let Ok(mut s) = tokio::net::TcpStream::connect(addr).await {
+                    let _ = s.set_nodelay(true);
+                    let _ = s.write_all(bytes).await;
+                    open.push(s);
+                }
+            }
+            if fname == "server" {
+                // a TLS connection that completed the handshake and stalls inside the preamble
+                if let Ok(cfg) = anytls_rs::util::tls::create_client_config() {
+                    let connector = tokio_rustls::TlsConnector::from(cfg);
+                    if let Ok(tcp) = tokio::net::TcpStream::connect(addr).await
+                        && let Ok(Ok(mut tls)) = tokio::time::timeout(Duration::from_secs(3), connector.connect(tokio_rustls::rustls::pki_types::ServerName::try_from("localhost").unwrap(), tcp)).await
+                    {
+                        let _ = tls.write_all(&[7u8; 20]).await;
+                        let _ = tls.flush().await;
+                        std::mem::forget(tls);
+                    }
+                }
+            }
+            tokio::time::sleep(Duration::from_millis(100)).await;
+            let ok = match fname {
+                "socks5" => match tokio::time::timeout(Duration::from_secs(4), socks5_connect(addr, target.addr)).await {
+                    Ok(Ok(mut s)) => {
+                        let _ = s.write_all(b"sibling").await;
+                        let mut b = [0u8; 7];
+                        matches!(tokio::time::timeout(Duration::from_secs(3), s.read_exact(&mut b)).await, Ok(Ok(_))) && &b == b"sibling"
+                    }
+                    _ => false,
+                },
+                "http" => {
+                    let req = format!("CONNECT {} HTTP/1.1\r\nHost: x\r\n\r\n", target.addr);
+                    match tokio::net::TcpStream::connect(addr).await {
+                        Ok(mut s) => {
+                            let _ = s.write_all(req.as_bytes()).await;
+                            let mut acc = vec![];
+                            let mut b = [0u8; 1];
+                            while !acc.ends_with(b"\r\n\r\n") {
+                                match tokio::time::timeout(Duration::from_secs(4), s.read(&mut b)).await {
+                                    Ok(Ok(1)) => acc.push(b[0]),
+                                    _ => break,
+                                }
+                            }
+                            acc.starts_with(b"HTTP/1.1 200")
+                        }
+                        Err(_) => false,
+                    }
+                }
+                _ => {
+                    // a brand-new client, so that a new TLS connection has to be accepted by the server now
+                    let c = make_client("pw", addr, anytls_rs::padding::PaddingFactory::default(), pool_cfg(3600, 3600, 1));
+                    let r = tokio::time::timeout(Duration::from_secs(5), c.create_proxy_stream((target.addr.ip().to_string(), target.addr.port()))).await;
+                    let ok = matches!(r, Ok(Ok(_)));
+                    if let Ok(Ok((_st, sess))) = r {
+                        let _ = sess.close().await;
+                    }
+                    c.stop_session_pool_cleanup().await;
+                    ok
+                }
+            };
+            if !ok {
+                v.push(("C20:sibling-connection-blocked-by-stalled-connection".to_string(), format!("{fname} listener: while {} connections with incomplete input ({}) are held open, a well-formed request on a new connection is not served within 4 s", open.len(), stallers.iter().map(|x| x.0).collect::<Vec<_>>().join(", "))));
+            }
+            drop(open);
+        }
         Ok(v)
     });
     drop(rt);
@@ -596,5 +675,5 @@ pub fn run(tier: Tier) -> i32 {
     if after > before && rep.observations.is_empty() {
         rep.observe(format!("{} panic(s) were counted by the process-wide hook during the run", after - before));
     }
-    rep.finish("IX: single frames over all 256 command bytes x 4 ids x 9 payloads (settings, garbage, invalid UTF-8, 65535 bytes, hostile scheme texts) and all pairs over a reduced alphabet, both roles; every bit flip (first 160 bytes), truncation, frame duplication, adjacent swap and length-field corruption of a recorded conversation in both directions; destination / UDP parsers on all 256 type bytes x lengths x truncations; HTTP header blocks with multi-byte characters at every offset and degenerate targets; LX: malformed input on both front-ends followed by a well-formed sibling request; oracle: no panic, no spin, and afterwards a well-formed exchange works or the session closed cleanly; non-trivial = distinct case")
+    rep.finish("IX: single frames over all 256 command bytes x 4 ids x 9 payloads (settings, garbage, invalid UTF-8, 65535 bytes, hostile scheme texts) and all pairs over a reduced alphabet, both roles; every bit flip (first 160 bytes), truncation, frame duplication, adjacent swap and length-field corruption of a recorded conversation in both directions; destination / UDP parsers on all 256 type bytes x lengths x truncations; HTTP header blocks with multi-byte characters at every offset and degenerate targets; LX: malformed input on both front-ends followed by a well-formed sibling request, and connections stalling with incomplete input (held open) on both front-end listeners and the server's TLS listener while a sibling request arrives; oracle: no panic, no spin, and afterwards a well-formed exchange works or the session closed cleanly; non-trivial = distinct case")
 }
